@@ -216,6 +216,24 @@ def generate():
                     raise Unsupported(f'flow: {ast.unparse(x)[:80]} in {os.path.basename(path)}')
                 if isinstance(x, ast.Attribute) and x.attr == '__dict__': raise Unsupported(f'flow: __dict__ used in {os.path.basename(path)}:{fn.name}')
     out.append('Definition budget_assignments : list string := [' + '; '.join('"' + a + '"%string' for a in sorted(assigns)) + '].')
+    # ... and every assignment to an attribute named keep_alive: the user's choice (constructor default, Inverter.set_keep_alive) is not overridden elsewhere
+    ka = []
+    for path in sorted(glob.glob(os.path.join(REPO, 'goodwe', '*.py'))):
+        t = ast.parse(open(path).read(), path)
+        owner = {}
+        for c in ast.walk(t):
+            if isinstance(c, ast.ClassDef):
+                for n in c.body:
+                    if isinstance(n, (ast.FunctionDef, ast.AsyncFunctionDef)): owner[n] = c.name
+        for fn in ast.walk(t):
+            if not isinstance(fn, (ast.FunctionDef, ast.AsyncFunctionDef)): continue
+            for x in ast.walk(fn):
+                tg = x.targets if isinstance(x, ast.Assign) else [x.target] if isinstance(x, (ast.AugAssign, ast.AnnAssign)) else x.targets if isinstance(x, ast.Delete) else []
+                for tt in tg:
+                    for el in (tt.elts if isinstance(tt, ast.Tuple) else [tt]):
+                        if isinstance(el, ast.Attribute) and el.attr == 'keep_alive':
+                            ka.append(f'{owner.get(fn, os.path.basename(path)[:-3])}.{fn.name}: {ast.unparse(el)}')
+    out.append('Definition keep_alive_assignments : list string := [' + '; '.join('"' + a + '"%string' for a in sorted(ka)) + '].')
     return '\n'.join(out) + '\n'
 
 
